@@ -13,6 +13,7 @@ import (
 
 //verif:harness id=C05 tier=quick,thorough witness=end,typed,illtyped bounds="deepObject with compositions: query parameter p whose member a has schema oneOf / anyOf [integer, boolean] (either order) or allOf [T, constraint-only] (either order), or whose own schema is allOf of two object schemas declaring a and b; every printable-ASCII leaf text of 1-2 bytes without [ ] = &: a text that is a serialisation of (one of) the declared type(s) decodes to that typed value under the member's name; any other text is never decoded to a value"
 func verifH_C05_deepobject_compositions() {
+	verifMapOrder() // map iteration order is unspecified: ascending and descending key order
 	intS, boolS := verifPrimSchema("integer"), verifPrimSchema("boolean")
 	untyped := &openapi3.SchemaRef{Value: &openapi3.Schema{Description: "a constraint-only branch"}}
 	obj := func(props openapi3.Schemas) *openapi3.SchemaRef {
